@@ -168,6 +168,10 @@ class SpecMixin:
                 return TV("bool", a == b)
             if nm in ("forall", "exists"):
                 return self.spec_quant(nm, None, None, n.args[0], frame)
+            if nm in ("forall_val", "exists_val"):
+                return self.spec_quant(nm[:6], None, None, n.args[0], frame, sort="val")
+            if nm in ("forall_str", "exists_str"):
+                return self.spec_quant(nm[:6], None, None, n.args[0], frame, sort="str")
             if nm in ("forall_in", "exists_in"):
                 lo = self.as_int(self.eval(n.args[0], frame))
                 hi = self.as_int(self.eval(n.args[1], frame))
@@ -232,14 +236,15 @@ class SpecMixin:
                 return hook(n, frame)
         return None  # fall back to the ordinary (pure) call path
 
-    def spec_quant(self, kind, lo, hi, lam, frame):
+    def spec_quant(self, kind, lo, hi, lam, frame, sort="int"):
         if not isinstance(lam, ast.Lambda):
             raise Unsupported("quantifier needs a lambda")
         names = [a.arg for a in lam.args.args]
-        js = [fresh("q_" + nm, core.IntS) for nm in names]
+        zs = {"int": core.IntS, "val": Val, "str": core.StrS}[sort]
+        js = [fresh("q_" + nm, zs) for nm in names]
         fr = Frame(parent=frame, func=frame.func)
         for nm, j in zip(names, js):
-            fr.vars[nm] = TV("int", j)
+            fr.vars[nm] = TV(sort, j)
         outer = self.spec_side
         self.spec_side = []
         try:
